@@ -910,11 +910,14 @@ func firstN(xs []string, n int) []string {
 // ------------------------------------------------------------------ C03.R8
 // Start-up and round-skip corners of termination:
 // (a) needProofBlock looks at block height-1 except at the chain's first height — which is InitialHeight, not
-//     1: with initial_height > 1 and a wait-for-transactions configuration the lookup returns nil and every
-//     validator panics in round 0 of the first height;
+//
+//	1: with initial_height > 1 and a wait-for-transactions configuration the lookup returns nil and every
+//	validator panics in round 0 of the first height;
+//
 // (b) HeightVoteSet.SetRound creates the vote sets of every round from the one before the *current* round up
-//     to the new round: after a skip of several rounds the skipped rounds' sets must exist, or an older polka
-//     that would release a lock cannot be admitted.
+//
+//	to the new round: after a skip of several rounds the skipped rounds' sets must exist, or an older polka
+//	that would release a lock cannot be admitted.
 func init() {
 	register("C03", "R8", "K1+K10", "the first height is recognised by InitialHeight before block height-1 is consulted; a round skip creates the vote sets of all skipped rounds", 5, func(c *Ctx) {
 		w := c.W
